@@ -113,13 +113,30 @@ def Statement_gen_yields_all_when_dry : Prop :=
     spelling of it — per character raw, two-character escape, `\/`, `\uXXXX` in either case, a surrogate pair above
     U+FFFF; control characters, quotes, backslashes, non-BMP characters included — whatever follows the closing quote. -/
 def Statement_json_text_roundtrip : Prop :=
-  ∀ (ks : List Nat) (s rest : Str), jsonScan (jsonSpell ks s ++ '"' :: rest) = .ok (s, rest)
+  ∀ (ks : List Nat) (s rest : Str), jsonScan (jsonSpell ks s ++ '"' :: rest) = .ok (s, rest, false)
 
 /-- … in particular what Python's two encoders write — `encode_basestring` (`ensure_ascii=False`, what rdflib's
     writer passes) and `encode_basestring_ascii` (the `json.dumps` default) — for every string: cell values,
     variable names, keys. -/
 def Statement_json_py_text_roundtrip : Prop :=
   ∀ (ascii : Bool) (s : Str), jsonLoadsStr (pyDumpsStr ascii s) = .ok s
+
+/-- CSV text: Python's `csv.reader` (the `_csv.c` state machine over the lines of a `newline=""` source) recovers EVERY
+    field table — any number of rows and fields, zero included, any characters: delimiters, quotes, CR, LF, CR LF inside
+    fields, empty fields, the record that is one empty field — from what `csv.writer` writes (QUOTE_MINIMAL, doubled
+    quotes, CR LF), and from every other RFC 4180 rendering: fields quoted without need, bare LF line ends. -/
+def Statement_csv_text_roundtrip : Prop :=
+  ∀ (qss : List (List Bool)) (lf : Bool) (t : List (List Str)), csvParse (csvRender qss lf t) = .ok t
+
+/-- … hence rdflib's CSV writer and reader composed through the TEXT behave exactly as the field-table model that
+    `csv_preserves` is about: nothing is lost or altered by quoting (known lossy cases are those of `csv_preserves`:
+    a blank node comes back labelled `_:label`, IRIs outside http(s) and typed / tagged literals come back as plain
+    literals with the same string value). -/
+def Statement_csv_text_preserves : Prop :=
+  (∀ r, csvTextRoundTrip r = csvRoundTrip r) ∧
+  ∀ vars rows, (∀ r ∈ rows, r.length = vars.length) →
+    ∃ f : Cell → Cell, (∀ c, cellStr (f c) = csvSpec c) ∧
+      csvTextRoundTrip (.select vars rows) = .ok (.select vars (rows.map (fun r => r.map f)))
 
 /-! ### Theorems -/
 
@@ -225,6 +242,8 @@ theorem tsv_old_reader_drops_unbound_rows :
     readTsvOld (render [] [['a'], ['b']] [[none, none], [some (.iri ['x']), some (.iri ['y'])]])
       = .ok (.select [['a'], ['b']] [[some (.iri ['x']), some (.iri ['y'])]]) := by rfl
 
+theorem csv_text_roundtrip : Statement_csv_text_roundtrip := csvParse_csvRender
+
 theorem csv_preserves : Statement_csv_preserves := by
   intro vars rows h
   refine ⟨fun c => csvConvert (csvField c), ?_, csvRoundTrip_select vars rows h⟩
@@ -233,6 +252,14 @@ theorem csv_preserves : Statement_csv_preserves := by
   cases c with
   | none => rfl
   | some t => cases t <;> rfl
+
+theorem csv_text_preserves : Statement_csv_text_preserves :=
+  ⟨csvTextRoundTrip_eq, fun vars rows h => by rw [csvTextRoundTrip_eq]; exact csv_preserves vars rows h⟩
+
+/-- the writer on a record with a delimiter, a quote, a line break, an empty field; the record of one empty field; the
+    empty record -/
+example : csvWrite [[['a', ','], ['"'], ['\r', '\n'], []], [[]], []]
+    = "\"a,\",\"\"\"\",\"\r\n\",\r\n\"\"\r\n\r\n".toList := by decide
 
 /-! ### Non-vacuity: the hypotheses are met by concrete, non-trivial tables -/
 
